@@ -223,6 +223,9 @@ BODY_A = {
     "a9": [("offdiagonal", '"Hp" - "Hp @ A".adj'), ("diagonal", '"Hp @ A" / -2')],
     "a10": ['"Hp"', '"B" + "B"'],
     "a11": [("diagonal", '"Ad @ H @ A" / 2 + "Hp"'), ("offdiagonal", '"Hp"')],
+    "a12": [("lower", '"Hp" + "B"'), '"Hp" / 2'],
+    "a13": ['zero if flagF else "Hp"', ("diagonal", '"B" if flagT else "Hp"')],
+    "a14": ['g("Hp", "B")', ("offdiagonal", '-"Hp @ A"')],
 }
 BODY_B = {
     "b1": ['"Hp"'],
@@ -234,6 +237,8 @@ BODY_B = {
     "b7": [("diagonal", '"Ad @ A"'), ("offdiagonal", '-"Hp @ A"')],
     "b8": ['"H" + "H"'],
     "b9": ['"Ad @ H @ A" - "Hp"'],
+    "b10": ['"Hp @ A @ Hp @ A" + "Hp"'],
+    "b11": [("lower", '-"A".adj'), '"Hp"'],
 }
 K3_BODY = {"k3a": [("diagonal", 'f("Hp")')], "k3b": [("diagonal", '"Hp" + f("B")'), ("offdiagonal", '"Hp"')]}
 STARTS_A = [0, 1, "H_0", None]
@@ -263,7 +268,8 @@ def render(startA, markerA, bodyA, startB, bodyB, ret, products3=True):
     L += block("B", startB, None, bodyB)
     L += ['    with "Ad":', '        "A".adj']
     text = " ".join(st[1] if isinstance(st, tuple) else st for st in list(bodyA) + list(bodyB))
-    for p, h in (("Hp @ A", False), ("A @ B", False), ("Ad @ A", True), ("Hp @ A @ B", False), ("Ad @ H @ A", True)):
+    for p, h in (("Hp @ A", False), ("A @ B", False), ("Ad @ A", True), ("Hp @ A @ B", False), ("Ad @ H @ A", True),
+                 ("Hp @ A @ Hp @ A", False)):
         if f'"{p}"' not in text:
             continue  # only declare the products the program uses (factors of products are never auto-deleted)
         L += [f'    with "{p}":', "        hermitian" if h else "        pass"]
@@ -330,7 +336,13 @@ def run_grammar(case):
             return 2 * np.eye(sizes[index[0]])
         return 2 * v
 
-    scope = {"f": f}
+    def g(x, y, index):
+        a_, b_ = f(x, index), f(y, index)
+        if a_ is zero:
+            return b_ if b_ is zero else 1.5 * b_
+        return a_ if b_ is zero else a_ + 1.5 * b_
+
+    scope = {"f": f, "g": g, "flagT": True, "flagF": False}
     bound = (2,) if k == 1 else (1, 1)
     ref = Interp(src, {"H": Hv}, scope, nb, k, zero, one, Dagger)
     names = ref.names()
@@ -441,7 +453,13 @@ def run_bfs_program(case):
             return 2 * np.eye(sizes[index[0]])
         return 2 * v
 
-    scope = {"f": f}
+    def g(x, y, index):
+        a_, b_ = f(x, index), f(y, index)
+        if a_ is zero:
+            return b_ if b_ is zero else 1.5 * b_
+        return a_ if b_ is zero else a_ + 1.5 * b_
+
+    scope = {"f": f, "g": g, "flagT": True, "flagF": False}
     ref = Interp(src, {"H": Hv}, scope, nb, k, zero, one, Dagger)
     names = ref.names()
     letters = [(name, (i, j, n)) for name in names for i in range(nb) for j in range(nb) for n in range(2)]
